@@ -21,11 +21,11 @@ pub mod native_enum {
         b
     }
     pub const CLAUSES: [(&str, &str); 7] = [
-        ("C08 C14 C17 C31", "len() counts the significant tokens; is_empty() iff there is none"),
-        ("C08 C14 C17 C31", "non_skip_token_at(i) is the i-th significant token (None beyond)"),
+        ("C08 C14 C16 C17 C31", "len() counts the significant tokens; is_empty() iff there is none"),
+        ("C08 C14 C16 C17 C31", "non_skip_token_at(i) is the i-th significant token (None beyond)"),
         ("C17 C31", "non_skip_token_at_mut(i) refers to the i-th significant token in place; writing through it changes exactly that token"),
         ("C31", "non_skip_token_types() are the types of the significant tokens, in order"),
-        ("C14 C17", "take_skip_tokens() returns exactly the maximal skipped prefix, in order, and leaves exactly the rest"),
+        ("C14 C16 C17", "take_skip_tokens() returns exactly the maximal skipped prefix, in order, and leaves exactly the rest"),
         ("C17", "non_skip_tokens() / non_skip_tokens_rev() iterate exactly the significant tokens (forwards / backwards)"),
         ("C14 C17", "is_buffer_empty() iff the buffer holds no token at all; clear() empties it"),
     ];
